@@ -1,6 +1,7 @@
 """C02 BPE tokenization is lossless for every well-formed table: id-space agreement and byte provenance."""
 from analysis.engine import rule, AnchorMissing
 from analysis import cfg
+from analysis.facts import norm_path
 from analysis.sym import sym, show_in, nosite, peel, core, walk, ret_values, args_of, loop_source
 from analysis.pat import match, Call, Cap, ANY, Pred, Const, has, chain_names
 from rules.common import body_for, bpe_body, closure_of, BPE, find_pop_loop
@@ -169,3 +170,55 @@ def r5(ctx):
     ctx.require(not tls, body, 'no-ambient-state', 'merge_bytes consults no thread-local / static mutable state',
                 'merge_bytes uses thread-local state at line %d: results of one tokenizer leak into another' % (
                     tls[0][1].span['line'] if tls else 0))
+
+
+@rule('C02', 'R-C02-6', 'T10 WHO (whole pieces) / MUST-PASS (dense merge ids)',
+      'tokenize hands every regular piece of split_input(s) to merge_bytes unchanged and whole (a piece cut into chunks loses '
+      'the whitespace at the cut and merges across it differently) and appends its ids once; merge_bytes has no other caller; '
+      'the table producer train_bpe records a merge under the loop index in every iteration that selected a pair, so the ids of a '
+      'trained table are dense (the tokenizer lays the table out densely in id order)')
+def r6(ctx):
+    from analysis.seq import seq_of_var, ITEM
+    from rules.common import state_locals
+    t = body_for(ctx, TOK + 'tokenize', BPE)
+    ids = state_locals(t, r'^std::vec::Vec<u32>$')
+    if len(ids) != 1:
+        raise AnchorMissing('id vector of BPE tokenize (found %d)' % len(ids))
+    segs = seq_of_var(ctx.facts, t, ids[0])
+    top = segs[0] if segs is not None and len(segs) == 1 and segs[0].kind == 'nest' else None
+    ok = top is not None and not top.conds and match(core(top.src), Call('split_input', ('arg', 1, ANY), ('arg', 2, ANY), ('arg', 3, ANY)))
+    ctx.require(ok, t, 'per-piece', 'ids are appended once per piece of split_input(s, ignore_special_tokens), in order',
+                'ids are built as %s' % [repr(x)[:160] for x in segs or ()])
+    kinds = {}
+    piece = lambda v: ('field', ('variant', ITEM, v), 0)
+    for l in (top.inner if ok else ()):
+        arm = [c[2][0] for c, p in l.conds if p and c[0] == 'is' and c[1] == ITEM and len(c[2]) == 1]
+        other = [c for c, p in l.conds if not (p and c[0] == 'is' and (c[1] == ITEM or c[2] == ('Continue',)))]
+        if l.kind == 'each' and arm == ['Regular'] and not other and core(l.elem) == ('item', 1) and \
+                match(core(l.src), Call('merge_bytes', ('arg', 1, ANY), Pred(lambda u: core(u) == piece('Regular')))):
+            kinds.setdefault('regular', []).append(l)
+        elif l.kind == 'one' and arm == ['Special'] and not other and has(l.elem, Call('Vocab::token_to_id', ('field', ('arg', 1, ANY), 'special_vocab'), Pred(lambda u: core(u) == piece('Special')))):
+            kinds.setdefault('special', []).append(l)
+        else:
+            ctx.fail(t, 'unpaired-id-writer|' + l.kind, 'ids also receive `%s` (line %d): a regular piece must go through merge_bytes whole and once' % (
+                repr(l)[:140], l.term.span['line'] if l.term else 0), l.term.span if l.term else None)
+    for k in ('regular', 'special'):
+        ctx.require(len(kinds.get(k, [])) == 1, t, 'id-writer|' + k, 'exactly one `%s` id writer' % k, 'found %d' % len(kinds.get(k, [])))
+    callers = [(b, c) for b in ctx.facts.bodies for c in b.calls(r'BaseTokenizer::merge_bytes$') if b.file().startswith('src/')]
+    ctx.require(len(callers) == 1 and callers[0][0].path == t.path, t, 'single-caller', 'merge_bytes is called only from tokenize, once',
+                'merge_bytes is called from %s' % sorted({norm_path(b.path) + ':%d' % c.span['line'] for b, c in callers}))
+    # dense ids in the producer
+    tr = ctx.body('tokenization::train_bpe')
+    ins = [c for c in tr.calls(r'HashMap::insert$') if 'HashMap<std::vec::Vec<u8>, u32>' in tr.local_ty(c.args[0].place.local)]
+    if len(ins) != 1:
+        raise AnchorMissing('merge_ops.insert(..) in train_bpe (found %d)' % len(ins))
+    loop = cfg.innermost_loop(tr, ins[0].bb)
+    sel = [c for c in tr.calls(r'tokenization::max_byte_pair$') if loop is not None and c.bb in loop.blocks]
+    if loop is None or len(sel) != 1:
+        raise AnchorMissing('merge loop / pair selection of train_bpe')
+    from analysis.sym import variant_edges
+    some = variant_edges(tr, sym(tr, sel[0].dest), 'Some')
+    ok = bool(some) and all(cfg.must_pass(tr, e[1], l, via_blocks=[ins[0].bb]) for e in some for l in loop.latches)
+    ctx.require(ok, tr, 'dense-ids', 'every iteration that selected a pair records it under the loop index before the next iteration',
+                'an iteration of the merge loop can move on to the next index without recording a merge (line %d): the saved ids have holes, '
+                'and BPETokenizer::new lays the table out densely, so every later id decodes to the bytes of another merge' % ins[0].span['line'], ins[0].span)
